@@ -76,7 +76,9 @@ func (o *op) String() string {
 	return fmt.Sprintf("op%d %s(%s)@node%d", o.id, o.kind, o.key, o.node)
 }
 
-func valueOf(vid int) []byte { return []byte(fmt.Sprintf("v%d", vid)) }
+// valueOf: the value of a put carries the operation's id in a fixed width, so that all puts of one kind encode to WAL
+// records of one size (record boundaries line up when a log is truncated and re-written).
+func valueOf(vid int) []byte { return []byte(fmt.Sprintf("v%06d", vid)) }
 func vidOf(b []byte) int {
 	if len(b) < 2 || b[0] != 'v' {
 		return -1
